@@ -943,7 +943,12 @@ def main(tier, replay=None):
                 "8 owner/alphabet kinds x deleter present or not x every sequence of length 3 / 4 (two / three kinds one step longer) plus sampled sequences over the full pools; "
                 "trigger + dependant (two spec_properties t, q on one spec-class instance, q invalidated_by=['t'] or '*'): 16 trigger flag combinations x managed or not x "
                 "dependant cache / overridable / both x managed or not x ['t'] / '*' x 14 sequences (fill q by read or assignment; assign / delete / read t, sentinel, x; read q) "
-                "plus sampled sequences of length <= 5 / <= 8 over all flags and pools of both properties; distinct = distinct case tuples; "
+                "plus sampled sequences of length <= 5 / <= 8 over all flags and pools of both properties; "
+                "owner layouts (round G): the descriptor defined on a plain mix-in / on a parent spec class that does not manage it, managed (annotation + preparer) "
+                "only by the spec subclass whose instance is used (also: instance of a spec / plain subclass of the managing class, mix-in below a managing parent): "
+                "16 flag combinations x 6 layout/preparer kinds x every sequence of length 3 / 4 plus 3 000 / 30 000 sampled over all owner kinds x 5 layouts and the full pools; "
+                "classproperty without a getter: 32 flag combinations x 2 shapes x 48 sequences (assign through one class [, delete / second assignment], read through classes and instances); "
+                "distinct = distinct case tuples; "
                 "every case has >= 1 operation; after EVERY operation outcome, stored entry, underlying state and getter call count are compared",
         "samples": [dict(kind="sp", case=sp[0]), dict(kind="sp", case=sp[-1]), dict(kind="cp", case=cp[0]), dict(kind="cp", case=cp[-1]),
                     dict(kind="spo", case=all_cases["spo"][0][0]), dict(kind="dp", case=all_cases["dp"][-1][0])],
